@@ -328,7 +328,7 @@ impl World {
                 let code = match self.model.st {
                     CSt::PlayRequested if ctx.ch.chance("op.arg.right", 3, 4) => "NetStream.Play.Start",
                     CSt::PublishRequested if ctx.ch.chance("op.arg.right", 3, 4) => "NetStream.Publish.Start",
-                    _ => *ctx.ch.pick("op.arg.code", &["NetStream.Play.Reset", "NetStream.Play.Start", "NetStream.Publish.Start", "NetStream.Play.Stop", "NetStream.Data.Start", "bogus"]),
+                    _ => *ctx.ch.pick("op.arg.code", &["NetStream.Play.Reset", "NetStream.Play.Start", "NetStream.Publish.Start", "NetStream.Play.Stop", "NetStream.Data.Start", "bogus", "NETSTREAM.PLAY.START", "netstream.publish.start", "NetStream.Play.start", "NetStream.Publish.Start ", "NetStream.Play.Start.", "NetStream.Play", ""]),
                 };
                 let sid = self.pick_sid(ctx);
                 (msg::command(sid, ts, "onStatus", 0.0, AV::Null, vec![msg::status_object("status", code, "d")]), 5)
@@ -363,7 +363,12 @@ impl World {
                     props.push(("stereo".to_string(), AV::Bool(true)));
                 }
                 if mask >> 5 & 1 == 1 {
-                    props.push(("encoder".to_string(), AV::s("enc")));
+                    let enc = match ctx.ch.weighted("op.arg.enck", &[4, 1, 2]) {
+                        0 => "enc".to_string(),
+                        1 => String::new(),
+                        _ => crate::worlds::hostile::long_mixed_string(ctx),
+                    };
+                    props.push(("encoder".to_string(), AV::Str(enc)));
                 }
                 let obj = if ctx.ch.chance("op.arg.ecma", 1, 4) { AV::Ecma(props) } else { AV::Obj(props) };
                 (msg::data(sid, ts, &[AV::s("onMetaData"), obj]), 4)
